@@ -23,7 +23,7 @@ const EMPTY_ENTRIES_AC: &[&str] = &["{\"as\":\"\"}", "{\"\":\"x\"}", "{\"\":\"\"
                                     "{\"as\":\"\u{0986}\u{09B6}\",\"amar\":\"t\u{00FC}m\"}", "{\"a\":\"\u{0986}\",\"tumi\":\"\u{00E9}\"}"];
 const VALID_SEL: &str = "{\"amar\":\"\u{0986}\u{09AE}\u{09B0}\",\"as\":\"\u{0986}\u{09B6}\"}";
 const VALID_AC: &str = "{\"as\":\"asa\",\"tumi\":\"tomra\"}";
-const WORDS: &[&str] = &["as", "ase", "amar", "a", "tumi", ":e"];
+const WORDS: &[&str] = &["as", "ase", "amar", "a", "tumi", ":e", ":er"];
 
 fn dirp(home: &Path) -> PathBuf {
     home.join("openbangla-keyboard")
@@ -222,7 +222,8 @@ impl Replayer {
                     }
                     "commit" => {
                         if let Some(c) = ctx.as_mut() {
-                            let words = ["amar", "kotha", "tumi", "bhalo"];
+                            // (":" - the engine itself then stores an EMPTY choice: the raw text of a punctuation-only word has no word part)
+                            let words = ["amar", "kotha", ":", "tumi", "bhalo"];
                             let w = words[(i + variant) % words.len()];
                             let mut last = Obs::default();
                             for ch in w.chars() {
@@ -247,7 +248,9 @@ impl Replayer {
                                 c.finish();
                                 self.rep.compared += 1;
                                 nontrivial = true;
-                                if again.kind == "panic" || again.cands.get(again.sel) != Some(&last.cands[idx]) {
+                                // (the statement speaks of a learned choice for a WORD; for the punctuation-only text only "nothing panics" applies)
+                                let is_word = w.chars().any(|ch| ch.is_ascii_alphanumeric());
+                                if again.kind == "panic" || (is_word && again.cands.get(again.sel) != Some(&last.cands[idx])) {
                                     self.rep.violation("fault", &format!("step {} (commit) with directory '{}': the choice {:?} is not remembered by the same context (preselected {:?})", i, st["dir"].as_str().unwrap_or(""), last.cands[idx], again.cands.get(again.sel)), case(i));
                                     return;
                                 }
